@@ -14,7 +14,7 @@ RULE = ("one content class of n paths (n<=3 quick, <=4 thorough; 25-byte or 2000
         "replica count from the statement (distinct inodes, paths under -H, roots under --isolate), strict filter, "
         "all paths of a reported class listed, same verdict for every spelling. Non-trivial = class with >= 2 paths "
         "or a link; distinct by (structure, flags, filter, spelling).")
-ASSUMPTIONS = ["under --isolate, links (hard or symbolic) that cross roots and overlapping roots are outside the alphabet (overlapping roots without --isolate are enumerated): "
+ASSUMPTIONS = ["under --isolate, links (hard or symbolic) that cross roots are outside the alphabet, and for NESTED roots both readings of 'which root owns the path' are accepted (the verdict must be one of them and may not depend on the order the files were created in); other overlapping roots under --isolate are outside the alphabet (overlapping roots without --isolate are enumerated): "
                "the documentation does not say which rule wins",
                "--stdin with --isolate and hidden roots are outside the alphabet"]
 
@@ -167,6 +167,7 @@ def cases(tier, seed):
                 meta = {"n": 3, "rgs": rgs, "placement": [0, 0, 0], "sym": None, "flags": flags,
                         "filter": " ".join(flt) or "default", "spelling": "colliding_names", "order": ["r1", "r1x"]}
                 out.append({"tree": tree, "roots": ["r1", "r1x"], "args": ["--min", "0"] + flags + flt, "meta": meta, "spellings": ["rel"]})
+    out += nested_cases()
     return out
 
 
@@ -174,7 +175,82 @@ def subst(x, root):
     return x.replace("@TREE@", root)
 
 
+def nested_cases():
+    """--isolate with NESTED roots (a and a/b). Which root owns a path below both is not documented: both readings
+    (the first root in the order given that contains the path; the innermost root) are accepted - but the verdict must be
+    ONE of them, whatever the order in which the files were created / arrive."""
+    out = []
+    for big in (False, True):
+        for layout in ("outer+inner", "two_inner", "outer+inner+other"):
+            for order in (["a/b", "a"], ["a", "a/b"], ["a/b", "a", "c"], ["c", "a", "a/b"]):
+                if ("c" in order) != (layout == "outer+inner+other"):
+                    continue
+                for flt in ([], ["--unique"], ["--rf-over", "0"]):
+                    out.append({"kind": "nested", "big": big, "layout": layout, "order": order, "flt": flt})
+    return out
+
+
+def evaluate_nested(case):
+    viol = []
+    content = ["base", 20000, 4] if case["big"] else ["lit", "same-content-of-the-class"]
+    files = {"outer+inner": ["a/outer", "a/b/inner"], "two_inner": ["a/b/i1", "a/b/sub/i2"],
+             "outer+inner+other": ["a/outer", "a/b/inner", "c/other"]}[case["layout"]]
+    roots = case["order"]
+
+    def owner(p, model):
+        cands = [r for r in roots if p == r or p.startswith(r + "/")]
+        if not cands:
+            return None
+        return cands[0] if model == "first" else max(cands, key=len)
+    rf_over, rf_under = 1, 0
+    if case["flt"] == ["--unique"]:
+        rf_over, rf_under = 10 ** 9, 2
+    elif case["flt"] == ["--rf-over", "0"]:
+        rf_over = 0
+    allowed = set()
+    for model in ("first", "innermost"):
+        count = len(set(owner(p, model) for p in files))
+        allowed.add(count > rf_over or count < rf_under)
+    verdicts = []
+    for rev in (False, True):
+        with C.Scratch() as sc:
+            ents = [{"p": p, "k": "file", "c": content} for p in (reversed(files) if rev else files)]
+            ents.append({"p": "a/zz_decoy", "k": "file", "c": ["flip", 20000, 4, 19999] if case["big"] else ["lit", "other-content-of-the-clas0"]})
+            for d in ("a/b", "c"):
+                ents.append({"p": d, "k": "dir"})
+            C.make_tree(sc.tree, ents)
+            args = ["group", "--min", "0", "--isolate"] + case["flt"] + roots + ["-f", "json"]
+            rc, out, err, to = C.fclones(args, sc)
+            feat = {"kind": "count_wrong", "root_spelling": "nested", "flags": "--isolate", "filter": " ".join(case["flt"]) or "default",
+                    "nested_isolate_roots": True}
+            if to or rc != 0:
+                viol.append(dict(feat, kind="crash" if to or b"panicked" in err else "error_exit",
+                                 detail="rc=%s %s; %s" % (rc, err.decode("utf-8", "replace")[-300:], args)))
+                continue
+            rep = C.parse_json_report(out)
+            want = frozenset(sc.path(p).decode() for p in files)
+            reported = any(frozenset(C.u(p) for p in g["paths"]) == want for g in rep.groups)
+            partial = [sorted(C.u(p) for p in g["paths"]) for g in rep.groups
+                       if frozenset(C.u(p) for p in g["paths"]) & want and frozenset(C.u(p) for p in g["paths"]) != want]
+            if partial:
+                viol.append(dict(feat, kind="paths_incomplete", detail="%s: group %s does not list the whole class %s" % (args, partial, files)))
+            verdicts.append(reported)
+            if reported not in allowed:
+                viol.append(dict(feat, detail="%s (files created in %s order): class %s %s, but it holds %s replicas under either reading of "
+                                 "nested roots" % (args, "reverse" if rev else "listed", files, "reported" if reported else "not reported",
+                                                   sorted(set(len(set(owner(p, m) for p in files)) for m in ("first", "innermost"))))))
+    if len(set(verdicts)) > 1:
+        viol.append({"kind": "depends_on_creation_order", "root_spelling": "nested", "flags": "--isolate",
+                     "filter": " ".join(case["flt"]) or "default", "nested_isolate_roots": True,
+                     "detail": "--isolate %s %s: the class %s is reported or not depending on the order in which the files were created" % (
+                         roots, case["flt"], files)})
+    return {"violations": viol, "evaluations": 2, "nontrivial": ["nested", case["big"], case["layout"], case["order"], case["flt"]],
+            "outcome": ["nested_isolate"], "sample": {"nested": case}}
+
+
 def evaluate(case):
+    if case.get("kind") == "nested":
+        return evaluate_nested(case)
     meta = case["meta"]
     viol = []
     outcome = []
